@@ -537,3 +537,27 @@ def oc_family(rng, n, exh_full=2, exh_small=3):
         k = rng.randint(2, 10)
         out.append("".join(rng.choice(pool) if rng.random() < 0.85 else rng.choice([" ", ";", "\n"]) for _ in range(k)))
     return [s for s in out if macro_free(s)]
+
+
+# ----------------------------------------------------------------------------- near-miss keywords
+
+KW_NEAR_CTX = ["%let r=%eval({} = 1);", "%if a {} b %then;", "x = a {} b;", "%let r=%sysevalf(1 {} 2);"]
+
+
+def kw_near_family(rng, n):
+    """Every one-letter substitution of an expression mnemonic, standing alone where the mnemonic could stand
+    (deterministic; does not consume the caller's generator): a keyword token must spell its keyword."""
+    import random as _r
+    own = _r.Random(1606)
+    words = []
+    for m in ["eq", "ne", "lt", "le", "gt", "ge", "in", "and", "or", "not"]:
+        for pos in range(len(m)):
+            for c in "abcdefghijklmnopqrstuvwxyz":
+                wd = m[:pos] + c + m[pos + 1:]
+                if wd != m:
+                    words.append(wd)
+                    words.append(wd.upper() if own.random() < 0.5 else wd.capitalize())
+    out = [ctx.format(wd) for wd in words for ctx in KW_NEAR_CTX]
+    if n < len(out):
+        out = own.sample(out, n)
+    return out
